@@ -606,6 +606,7 @@ fn finish<B: attohttpc::body::Body>(rb: attohttpc::RequestBuilder<B>, case: &Sen
             Err(_) => FinalObs::Panic,
             // the URL the response reports, whole: credentials and fragment are part of it (seed C09-seed8)
             Ok(Ok(resp)) => FinalObs::Ok(resp.status().as_u16(), resp.url().as_str().to_string()),
+            Ok(Err(e)) if !crate::resp::renders(&e) => FinalObs::Panic,
             Ok(Err(e)) => match e.kind() {
                 attohttpc::ErrorKind::ConnectError { status_code, body } => FinalObs::ConnectError(status_code.as_u16(), body.clone()),
                 _ => match classify_atto(&e) {
